@@ -128,7 +128,9 @@ impl Epoch {
         provider: L,
     ) -> Option<f64> {
         for leap_second in provider.rev() {
-            if self.to_tai_duration().to_seconds() >= leap_second.timestamp_tai_s
+            // Compare as durations: the f64 seconds of an epoch round up to the next whole second
+            // within its last few hundred nanoseconds.
+            if self.to_tai_duration() >= leap_second.timestamp_tai_s * Unit::Second
                 && (!iers_only || leap_second.announced_by_iers)
             {
                 return Some(leap_second.delta_at);
